@@ -120,6 +120,30 @@ def main(p):
                         bad.append(f"read_dedisp_block(start={start}, nsamps={nsamps}, delays={dl.tolist()}) = {np.asarray(blk.data).tolist()}, x[c,t+delay_c] = {want.tolist()}")
                 except Exception as e:  # noqa: BLE001
                     bad.append(f"raised {type(e).__name__}: {e}")
+    elif p["kind"] == "reffreq":
+        from sigpyproc.params import DM_CONSTANT_LK
+        nch, rf = p["nchans"], p["ref_freq"]
+        fch1, foff = float(p.get("fch1", 1500.0)), float(p.get("foff", -1.0))
+        cases = [(fch1, foff)] if 100 < fch1 < 1e5 and 1e-3 < abs(foff) < 50 and fch1 + foff * nch > 50 else []
+        cases += [(1500.0, -2.0), (1200.0, 1.5)]
+        for fch1, foff in cases:
+            with tempfile.TemporaryDirectory() as d:
+                names = write_set(d, np.zeros((4, nch), np.uint8), 8, [4], fch1=fch1, foff=foff)
+                hdr = Header.from_sigproc(names)
+            cf = fch1 + foff * np.arange(nch)
+            want = {"ch1": fch1, "max": cf.max(), "min": cf.min(), "center": 0.5 * (cf.max() + cf.min())}.get(rf, rf)
+            try:
+                got = np.atleast_1d(hdr.get_dmdelays(10.0, ref_freq=rf, in_samples=False)).astype(np.float64)
+            except ValueError as e:
+                if rf != "bogus":
+                    bad.append(f"raised {e}")
+                continue
+            if rf == "bogus":
+                bad.append("an undefined reference frequency name was accepted")
+                continue
+            exact = DM_CONSTANT_LK * 10.0 * (cf ** -2.0 - float(want) ** -2.0)
+            if not np.allclose(got, exact, rtol=2e-3, atol=1e-6):
+                bad.append(f"get_dmdelays(ref_freq={rf!r}) on fch1={fch1}, foff={foff}, nchans={nch} = {got.tolist()} but the delays relative to {want} MHz are {exact.tolist()}")
     elif p["kind"] == "delays":
         from sigpyproc.params import DM_CONSTANT_LK, compute_dmdelays
         f = np.array(p["freqs"], dtype=np.float64)
